@@ -183,7 +183,7 @@ Lemma file_membership_err i w e w' : file_membership i w = Val (ER e, w') -> for
 Proof.
   unfold file_membership. intros H.
   apply wbind_inv in H as [(a & w1 & H1 & H) | (e0 & H1 & _)]; [|discriminate].
-  apply wget_inv in H1 as ([= <-] & ->). eapply fm_walk_err; eauto.
+  apply wget_inv in H1 as ([= ->] & ->). eapply fm_walk_err; eauto.
 Qed.
 
 Definition nonsplit (w : world) (i : id) : Prop := exists n, w_nodes w i = Some n /\ splittable T (n_type n) = Val 0.
@@ -370,6 +370,170 @@ Proof.
       eapply reach_par; eauto. exists n; auto. }
     destruct (IH pi w3 r w' hole3 C3 Hx3 Hf Hrp HI3 Hnp HSp H) as (FI & U4).
     split; auto. eapply under_trans; [eauto|]. eapply under_trans; eauto.
+Qed.
+
+(* ---------- the model an element belongs to ---------- *)
+Lemma nth_opt_error {A} (l : list A) k : nth_opt l k = nth_error l k.
+Proof. revert k. induction l as [|a l IH]; intros [|k]; cbn; auto. Qed.
+
+Lemma model_walk_top fuel : forall i w m w', model_walk fuel i w = Val (OK m, w') ->
+  exists r rn, AncS w r i /\ w_nodes w r = Some rn /\ n_parent rn = PModel m.
+Proof.
+  induction fuel as [|fuel IH]; intros i w m w' H; cbn [model_walk] in H; [discriminate|].
+  apply wbind_inv in H as [(n & w1 & H1 & H) | (e0 & H1 & [=])].
+  apply get_node_inv in H1 as (n' & Hn & [= <-] & ->).
+  destruct (n_parent n) as [|m0|p] eqn:Hp.
+  - discriminate.
+  - apply wret_inv in H as ([= ->] & _). exists i, n. split; [constructor|auto].
+  - destruct (IH _ _ _ _ H) as (r & rn & Ha & Hr & Hrp). exists r, rn. split; auto.
+    eapply A_up; eauto. exists n; auto.
+Qed.
+
+Lemma ancs_reach w r i : (forall c p, par w c p -> lists w p c) -> allocated w r -> AncS w r i -> Reach w r i.
+Proof.
+  intros NO Hr H. induction H as [|i p Hp Ha IH]; [constructor; auto|]. eapply R_kid; eauto.
+Qed.
+
+Lemma model_of_reach e w m w' : TreeInv w -> model_of e w = Val (OK m, w') ->
+  exists x, nth_opt (w_models w) (N.to_nat m) = Some x /\ In x (w_models w) /\ Reach w (m_root x) e.
+Proof.
+  intros (C & NO & RO) H. unfold model_of in H.
+  apply wbind_inv in H as [(w0 & w1 & H1 & H) | (e0 & H1 & [=])]. apply wget_inv in H1 as ([= ->] & ->).
+  destruct (model_walk_top _ _ _ _ _ H) as (r & rn & Ha & Hr & Hp).
+  pose proof (RO _ _ _ Hr Hp) as Hroot. unfold roots in Hroot.
+  destruct (nth_error (w_models w) (N.to_nat m)) as [x|] eqn:Hx.
+  2:{ rewrite nth_error_map, Hx in Hroot. discriminate. }
+  rewrite nth_error_map, Hx in Hroot. injection Hroot as <-.
+  exists x. rewrite nth_opt_error. split; auto. split; [eapply nth_error_In; eauto|].
+  apply ancs_reach; auto. exists rn; auto.
+Qed.
+
+(* ---------- models that are not touched ---------- *)
+Lemma reach_ancs_root w r i : Core w -> Reach w r i -> AncS w r i.
+Proof.
+  intros C H. induction H as [H|p c Hp IH Hl]; [constructor|]. eapply A_up; eauto. apply (c_up _ C). exact Hl.
+Qed.
+
+Lemma two_tops w r1 r2 i : (forall p, ~ par w r1 p) -> (forall p, ~ par w r2 p) -> AncS w r1 i -> AncS w r2 i -> r1 = r2.
+Proof.
+  intros N1 N2 H1. revert r2 N2. induction H1 as [|i p Hp Ha IH]; intros r2 N2 H2.
+  - destruct H2 as [|x q Hq Hb]; [reflexivity|]. exfalso. eapply N1; eauto.
+  - destruct H2 as [|x q Hq Hb].
+    + exfalso. eapply N2; eauto.
+    + assert (q = p) by (eapply par_fun; eauto). subst. eapply IH; eauto.
+Qed.
+
+Lemma reach_one_root w x y i : Core w -> In x (w_models w) -> In y (w_models w) ->
+  Reach w (m_root x) i -> Reach w (m_root y) i -> m_root x = m_root y.
+Proof.
+  intros C Hx Hy H1 H2. apply (two_tops w (m_root x) (m_root y) i).
+  - intros p. apply root_no_par; auto.
+  - intros p. apply root_no_par; auto.
+  - apply reach_ancs_root; eauto.
+  - apply reach_ancs_root; eauto.
+Qed.
+
+Lemma under_other w w' x y : Core w -> Under w w' (m_root x) -> In x (w_models w) -> In y (w_models w) ->
+  m_root y <> m_root x -> FilesInvM T w y -> FilesInvM T w' y.
+Proof.
+  intros C U Hx Hy Hne [A B S D].
+  assert (forall i, Reach w (m_root y) i -> w_nodes w' i = w_nodes w i) as Same.
+  { intros i Hr. apply (un_out _ _ _ U). intros Hr'. apply Hne. symmetry. eapply reach_one_root; eauto. }
+  assert (forall i s, Eff w i s -> Reach w (m_root y) i -> Eff w' i s) as Tr.
+  { intros i s He. induction He as [i n Hn Hf | i n p s Hn Hf Hp He IH]; intros Hr.
+    - constructor; auto. rewrite Same; auto.
+    - eapply Eff_up; eauto; [rewrite Same; auto|]. apply IH. eapply reach_par; eauto. exists n; auto. }
+  pose proof (fun i => proj1 (under_reach _ _ _ (m_root y) i U)) as RB.
+  constructor.
+  - intros i n Hr Hn. apply RB in Hr. rewrite Same in Hn; auto. apply (A i n); auto.
+  - intros i n p Hr Hn Hf Hp. apply RB in Hr. rewrite Same in Hn; auto.
+    destruct (B i n p Hr Hn Hf Hp) as (s & Hs & Hi). exists s. split; auto. apply Tr; auto.
+    eapply reach_par; eauto. exists n; auto.
+  - intros i n p pn Hr Hn Hf Hp Hpn. apply RB in Hr. rewrite Same in Hn; auto.
+    assert (Reach w (m_root y) p) as Hrp by (eapply reach_par; eauto; exists n; auto).
+    rewrite Same in Hpn; auto. apply (S i n p pn); auto.
+  - intros Hf i Hr. apply RB in Hr. destruct (D Hf i Hr) as (s & Hs). exists s. apply Tr; auto.
+Qed.
+
+(* in a well-formed world two entries of the model list with the same root are the same entry *)
+Lemma same_root_same_model w x y : Core w -> In x (w_models w) -> In y (w_models w) -> m_root x = m_root y -> x = y.
+Proof.
+  intros C Hx Hy E. apply In_nth_error in Hx as (k1 & H1). apply In_nth_error in Hy as (k2 & H2).
+  assert (nth_error (roots w) k1 = Some (m_root x)) as R1 by (unfold roots; rewrite nth_error_map, H1; reflexivity).
+  assert (nth_error (roots w) k2 = Some (m_root y)) as R2 by (unfold roots; rewrite nth_error_map, H2; reflexivity).
+  destruct (c_roots _ C _ _ R1) as (n1 & Hn1 & Hp1). destruct (c_roots _ C _ _ R2) as (n2 & Hn2 & Hp2).
+  rewrite E in Hn1. assert (n1 = n2) by congruence. subst.
+  assert (N.of_nat k1 = N.of_nat k2) as Ek by congruence. apply Nnat.Nat2N.inj in Ek. subst. congruence.
+Qed.
+
+(* everything together: an update confined to model x that re-establishes x's invariant keeps FilesInv *)
+Lemma under_all w w' x : Core w -> In x (w_models w) -> Under w w' (m_root x) -> FilesInv T w -> FilesInvM T w' x -> FilesInv T w'.
+Proof.
+  intros C Hx U FI FIx y Hy. rewrite (un_models _ _ _ U) in Hy.
+  destruct (N.eq_dec (m_root y) (m_root x)) as [E|Hne].
+  - assert (y = x) by (eapply same_root_same_model; eauto). subst. exact FIx.
+  - eapply under_other; eauto.
+Qed.
+
+(* ---------- Element::add_to_file ---------- *)
+Theorem add_to_file_inv e f w r w' :
+  TreeInv w -> FilesInv T w -> Known_add_foreign w (OpAddToFile e f) = false ->
+  e_add_to_file T e f w = Val (r, w') -> FilesInv T w'.
+Proof.
+  intros TI FI HK H. pose proof TI as (C & _). unfold e_add_to_file in H.
+  apply wbind_inv in H as [(n & w1 & H1 & H) | (e0 & H1 & _)]; [|apply get_node_inv in H1 as (? & _ & [=] & _)].
+  apply get_node_inv in H1 as (n' & Hn & [= <-] & ->).
+  apply wbind_inv in H as [(ps & w1 & H1 & H) | (e0 & H1 & _)].
+  2:{ apply parent_splittable_spec in H1 as (-> & _). exact FI. }
+  apply parent_splittable_spec in H1 as (-> & Hps).
+  destruct ps; cbn [negb] in H; [|apply wfail_inv in H as (_ & ->); exact FI].
+  apply wbind_inv in H as [(fm & w1 & H1 & H) | (e0 & H1 & _)].
+  2:{ assert (w' = w) as -> by (refine ((_ : ro (file_model f)) _ _ _ H1); ro_tac). exact FI. }
+  assert (w1 = w) as -> by (refine ((_ : ro (file_model f)) _ _ _ H1); ro_tac).
+  unfold file_model in H1.
+  apply wbind_inv in H1 as [(fl & w1 & H0 & H1) | (e0 & H0 & [=])].
+  apply get_file_inv in H0 as (fl' & Hfl & [= <-] & ->). apply wret_inv in H1 as ([= ->] & _).
+  apply wbind_inv in H as [(m & w1 & H1 & H) | (e0 & H1 & _)].
+  2:{ assert (w' = w) as -> by (refine ((_ : ro (model_of e)) _ _ _ H1); ro_tac). exact FI. }
+  assert (w1 = w) as -> by (refine ((_ : ro (model_of e)) _ _ _ H1); ro_tac).
+  destruct (f_model fl =? m) eqn:Em; cbn [negb] in H; [|apply wfail_inv in H as (_ & ->); exact FI].
+  destruct (model_of_reach _ _ _ _ TI H1) as (x & Hxm & Hx & Hre).
+  assert (In f (m_files x)) as Hf.
+  { unfold Known_add_foreign, model_of_b, model_b in HK. rewrite H1, Hfl, Em, Hxm in HK. cbn in HK.
+    apply Bool.negb_false_iff in HK. apply set_mem_in. exact HK. }
+  apply wbind_inv in H as [([loc cur] & w1 & H2 & H) | (e0 & H2 & _)].
+  2:{ assert (w' = w) as -> by (refine ((_ : ro (file_membership e)) _ _ _ H2); ro_tac). exact FI. }
+  destruct (file_membership_spec _ _ _ _ _ H2) as (-> & Hcur & _). clear H2.
+  destruct (set_mem f cur) eqn:Hmem; [apply wret_inv in H as (_ & ->); exact FI|].
+  apply wbind_inv in H as [(u & w1 & H2 & H) | (e0 & H2 & _)]; [|apply modify_node_wset in H2 as (? & _ & [=] & _)].
+  apply modify_files_fset in H2 as (_ & -> & _).
+  pose proof (FI x Hx) as FIx.
+  assert (HoleInv T (fset w e (set_add f cur)) x f (Some e)) as HI1.
+  { eapply hole_extend; eauto.
+    - apply hole_of_inv. exact FIx.
+    - right. intros p pn Hp Hpn.
+      destruct Hps as [(Hp0 & _)|[(m0 & Hpm & _)|(p0 & pn0 & sv & Hp0 & Hpn0 & Hsv & E)]]; try congruence.
+      assert (p0 = p) by congruence. subst p0. assert (pn0 = pn) by congruence. subst pn0.
+      exists sv. split; auto. injection E as E. symmetry in E. apply Bool.negb_true_iff, N.eqb_neq in E. exact E.
+    - intros h hn p [=].
+    - discriminate. }
+  assert (Under w (fset w e (set_add f cur)) (m_root x)) as U1 by (apply under_fset; auto).
+  apply wbind_inv in H as [(p & w1 & H2 & H) | (e0 & H2 & _)].
+  2:{ unfold parent_of in H2. destruct (n_parent n) eqn:Hp; try discriminate.
+      destruct Hps as [(_ & _ & [=])|[(m0 & Hpm & _)|(p0 & ? & ? & Hp0 & _)]]; congruence. }
+  unfold parent_of in H2. destruct (n_parent n) as [|m0|pi] eqn:Hp; try discriminate; apply wret_inv in H2 as ([= ->] & ->).
+  - apply wret_inv in H as (_ & ->). apply (under_all w (fset w e (set_add f cur)) x); auto.
+    eapply hole_close; eauto. intros hn p Hhn Hpp. rewrite (fset_eq _ _ _ _ Hn) in Hhn. injection Hhn as <-. cbn in Hpp. congruence.
+  - apply wbind_inv in H as [(w0 & w1 & H2 & H) | (e0 & H2 & _)]; [|apply wget_inv in H2 as ([=] & _)].
+    apply wget_inv in H2 as ([= ->] & ->).
+    assert (Core (fset w e (set_add f cur))) as C1 by (apply fset_core; auto).
+    destruct (atfr_spec x f (fuel_of (fset w e (set_add f cur))) pi (fset w e (set_add f cur)) r w' (Some e) C1) as (FIx' & U2); auto.
+    + rewrite fset_models. auto.
+    + apply fset_reach. eapply reach_par; eauto. exists n; auto.
+    + intros [= E]. eapply (not_own_parent w e pi); eauto. exists n; auto.
+    + intros h [= <-]. exists (set_files n (set_add f cur)), pi. rewrite (fset_eq _ _ _ _ Hn). cbn.
+      repeat split; auto. constructor.
+    + apply (under_all w w' x); auto. eapply under_trans; eauto.
 Qed.
 
 End Add.
